@@ -1298,7 +1298,19 @@ ares_status_t ares_send_query(ares_server_t *requested_server,
      * error codes */
     case ARES_ECONNREFUSED:
     case ARES_EBADFAMILY:
-      handle_conn_error(conn, ARES_TRUE, status);
+      {
+        unsigned short qid = query->qid;
+
+        handle_conn_error(conn, ARES_TRUE, status);
+
+        /* Closing the connection requeues or ends the other queries on it.
+         * Their callbacks may call ares_cancel(), which also cancels and frees
+         * the query we are in the middle of sending. */
+        if (ares_htable_szvp_get_direct(channel->queries_by_qid, qid) !=
+            query) {
+          return ARES_ECANCELLED;
+        }
+      }
       status = ares_requeue_query(query, now, status, ARES_TRUE, NULL, NULL);
       if (status == ARES_ETIMEOUT) {
         status = ARES_ECONNREFUSED;
